@@ -121,6 +121,55 @@ def pair_oracle(ctx, ncurves):
                             ctx.violation("pair:" + sig, what, {"history": hist, "curve": cid})
 
 
+def interrupt_oracle(ctx, ncurves):
+    """'operations that raise' include a request the user aborts: a KeyboardInterrupt (not an `Exception`) that
+    arrives while the contact-point estimation of `correct_tip_offset` is running.  The aborted request must not
+    be remembered; the same request afterwards gives the columns of a fresh curve."""
+    from nanite import poc as _poc
+    steps = ["compute_tip_position", "correct_tip_offset", "correct_force_offset"]
+    for cid in range(ncurves):
+        for exc in (KeyboardInterrupt, SystemExit, MemoryError):
+            for opts in ({}, {"correct_tip_offset": {"method": "deviation_from_baseline"}}):
+                hist = ["apply_preprocessing(['compute_tip_position', 'correct_force_offset'])",
+                        f"apply_preprocessing({steps}, {opts})  # {exc.__name__} raised inside compute_poc",
+                        f"apply_preprocessing({steps}, {opts})"]
+                idnt = histlib.fresh(cid)
+                ref = histlib.fresh(cid)
+                real = _poc.compute_poc
+
+                def aborted(*a, **k):
+                    raise exc()
+                with warnings.catch_warnings():
+                    warnings.simplefilter("ignore")
+                    ref.apply_preprocessing(copy.deepcopy(steps), copy.deepcopy(opts))
+                    idnt.apply_preprocessing(["compute_tip_position", "correct_force_offset"])
+                    _poc.compute_poc = aborted
+                    try:
+                        idnt.apply_preprocessing(copy.deepcopy(steps), copy.deepcopy(opts))
+                        raised = False
+                    except BaseException as e:  # noqa
+                        raised = isinstance(e, exc)
+                    finally:
+                        _poc.compute_poc = real
+                    believed = idnt.fit_properties.get("preprocessing")
+                    idnt.apply_preprocessing(copy.deepcopy(steps), copy.deepcopy(opts))
+                ctx.case({"probe": "aborted-request", "curve": cid, "exception": exc.__name__, "options": opts},
+                         nontrivial=f"abort:{cid}:{exc.__name__}:{json.dumps(opts, sort_keys=True)}",
+                         bucket=["stream=aborted-request", "exception=" + exc.__name__])
+                if not raised:
+                    continue
+                if believed == steps:
+                    ctx.violation("aborted-request-remembered:" + exc.__name__, f"a request aborted by {exc.__name__} "
+                                  "is reported as the applied pipeline", {"history": hist, "curve": cid})
+                diffc = [c for c in sorted(set(idnt.columns) | set(ref.columns))
+                         if c not in ("fit", "fit residuals", "fit range") and
+                         ((c in idnt) != (c in ref) or (c in ref and histlib.digest(idnt[c]) != histlib.digest(ref[c])))]
+                if diffc:
+                    ctx.violation("columns-differ-after-aborted-request:" + exc.__name__, f"columns {diffc} after "
+                                  f"repeating a request that was aborted by {exc.__name__} differ from those of a fresh "
+                                  "curve given the same request", {"history": hist, "curve": cid})
+
+
 def run(ctx):
     ctx.trusted = TRUST_COMMON + [
         "object model lean/Nanite/Model/Indent.lean (apply_preprocessing, acceptance = order rules of C14 + "
@@ -132,6 +181,7 @@ def run(ctx):
                 "pool curves (second request repeated); non-trivial = distinct history / pair")
     c03.common_setup(ctx, "C06")
     c03.run_histories(ctx, "C06", focus=(6, 2, 1, 0.2, 2), nhist=35 if ctx.tier == "quick" else 800)
+    interrupt_oracle(ctx, 1 if ctx.tier == "quick" else 3)
     pair_oracle(ctx, 1 if ctx.tier == "quick" else 3)
 
 
